@@ -83,9 +83,11 @@ def export_format(subtree, **params):
     if subtree.data['edge'] == None:
         subtree.data['edge'] = '--'
     label = trees.get_label(subtree, **params)
+    if subtree.data['morph'] == None:
+        subtree.data['morph'] = "--"
+    if subtree.data['lemma'] == None:
+        subtree.data['lemma'] = "--"
     if not 'export_four' in params:
-        if subtree.data['morph'] == None:
-            subtree.data['morph'] = "--"
         return u"%s%s%s\t%s%s%s\t%d\n" \
             % (subtree.data['word'],
                export_tabs(len(subtree.data['word'])),
@@ -280,7 +282,12 @@ def tigerxml(tree, stream, **params):
     stream.write(u"  <terminals>\n")
     for terminal in trees.terminals(tree):
         stream.write(u"    <t id=\"%d\" " % terminal.data['num'])
-        for field in ['word', 'lemma', 'label', 'morph']:
+        for field, default in [('word', trees.DEFAULT_WORD),
+                               ('lemma', trees.DEFAULT_LEMMA),
+                               ('label', trees.DEFAULT_LABEL),
+                               ('morph', trees.DEFAULT_MORPH)]:
+            if terminal.data[field] is None:
+                terminal.data[field] = default
             terminal.data[field] = quoteattr(terminal.data[field])
         stream.write(u"%s=%s " % ('word', terminal.data['word']))
         stream.write(u"%s=%s " % ('lemma', terminal.data['lemma']))
@@ -295,6 +302,8 @@ def tigerxml(tree, stream, **params):
                          % (subtree.data['num'],
                             quoteattr(subtree.data['label'])))
             for child in trees.children(subtree):
+                if child.data['edge'] is None:
+                    child.data['edge'] = trees.DEFAULT_EDGE
                 stream.write(u"      <edge label=%s idref=\"%d\" />\n"
                              % (quoteattr(child.data['edge']),
                                 child.data['num']))
